@@ -52,6 +52,9 @@ fn main() {
             machine = make();
             dead = false;
             writeln!(out, "{}", line).unwrap();
+            if interactive {
+                out.flush().unwrap();
+            }
             continue;
         }
         let toks: Vec<&str> = line.split(' ').filter(|t| !t.is_empty()).collect();
